@@ -7,6 +7,7 @@
 package seqx
 
 import (
+	"fmt"
 	"encoding/json"
 
 	"verif/engine"
@@ -93,4 +94,39 @@ func (s *Search[O]) Run(r *engine.Rec) {
 	r.States += int64(len(seen))
 	r.Distinct += int64(len(seen))
 	r.Max("depth", int64(maxDepth))
+}
+
+// Interference looks for state that a class keeps for all its instances: the
+// object under test is rebuilt, a bystander of the same class is built, the
+// operation is applied, another bystander is built - and at every point the
+// one that was not touched must still show what it showed before. rebuild
+// returns the object's view function and a function applying the operation;
+// each bystander constructor returns the view function of a fresh bystander.
+// The result is "" or a description of the first disturbance.
+func Interference(rebuild func() (view func() string, apply func(), ok bool), bystanders []func() (view func() string)) string {
+	for bi, mk := range bystanders {
+		view, apply, ok := rebuild()
+		if !ok {
+			return ""
+		}
+		v0 := view()
+		by := mk()
+		b0 := by()
+		if v := view(); v != v0 {
+			return fmt.Sprintf("building another collection of the same class (bystander %d) changes this one: %s, was %s", bi, v, v0)
+		}
+		apply()
+		v1 := view()
+		if b := by(); b != b0 {
+			return fmt.Sprintf("the operation changes another collection of the same class (bystander %d): %s, was %s", bi, b, b0)
+		}
+		by2 := mk()
+		if v := view(); v != v1 {
+			return fmt.Sprintf("building another collection of the same class after the operation (bystander %d) changes this one: %s, was %s", bi, v, v1)
+		}
+		if b := by2(); b != b0 {
+			return fmt.Sprintf("a collection built after the operation on another one (bystander %d) differs from the same collection built before: %s, was %s", bi, b, b0)
+		}
+	}
+	return ""
 }
